@@ -256,6 +256,17 @@ def rule_entry_first(ctx):
         okp = bool(pos) and (any(s[0] == "field" and s[2] == "mappings" for s in walk(pos[0][2][0])) or any(nosite(s) == nosite(recv) for s in walk(pos[0][2][0])))
         okp = okp and (any(s[0] == "call" and s[1].endswith("MappingInfo::aggregate") for s in walk(recv)) or (recv[0] == "field" and recv[2] == "mappings"))
         ctx.check(okz and okp, R, "swap-0-with-found", b.where(x), "the found mapping is swapped with index 0 of self.mappings", "swap(%s, %s)" % (show(i0), show(i1)[:80]))
+        # ... and it is an index INTO that vector: position() counts the items of the iterator it is called on, so the receiver must be the
+        # vector's own `iter()` — `skip(1)`, `rev()`, `filter(..)`, `chain(..)` in between make the count an index into something else
+        if pos:
+            it = strip(pos[0][2][0])
+            chain = []
+            while it[0] == "call" and it[2] and it[1].split("::")[-1] not in ("iter", "iter_mut"):
+                chain.append(it[1].split("::")[-1])
+                it = strip(it[2][0])
+            direct = it[0] == "call" and it[1].split("::")[-1] in ("iter", "iter_mut") and not [c_ for c_ in chain if c_ not in ("into_iter", "by_ref", "deref", "as_slice")]
+            ctx.check(direct, R, "index-of-same-vector", b.where(x), "position() counts the vector's own iterator: the result is an index into self.mappings",
+                      "position() is taken over %s(iter): the count is not an index into the vector that is swapped (an off-by-%s module becomes the first)" % ("/".join(reversed(chain)) or "?", "n"))
         # the position predicate: entry in [start, start+size)
         cl = [s for s in walk(pos[0][2][1]) if s[0] == "closure"] if pos else []
         okc = False
